@@ -880,7 +880,7 @@ func (j *judge) polynomial(eg graph.EditableGraph, rep string) {
 		}
 	}
 	// the argument must be left as it was
-	if rep == "sparse" && j.cs.workload == "poly-sparse" {
+	if rep == "sparse" && strings.HasPrefix(j.cs.workload, "poly-sparse") {
 		c.Eval(1)
 		var s *snapshot
 		if pi := c.Call("observe-representation|sparse|g6="+j.cs.g6, func() { s = takeSnapshot(eg) }); pi != nil {
